@@ -115,6 +115,8 @@ struct Run {
     int copies_outlived = 0;
     size_t maxn = 0;
     long walk_budget = 40000;
+    int put_failed_by_fault = 0;
+    int poison = 0;                 // errno value on entry to library calls: results must not depend on it
 
     Run(Src &s_, Ctx &c_, bool scr, bool ret) : s(s_), c(c_), scribble(scr), retain(ret) {}
     ~Run() {
@@ -204,15 +206,21 @@ struct Run {
         Buf *vs = (api == 1 || api == 2) ? Buf::cstr(v) : nullptr;
         qtreetbl_obj_t *rootb = t->root;
         bool ok;
-        errno = 0;
+        // C02 speaks about failed operations too: now and then one allocation of the put fails
+        bool inject = c.mode == "C02" && s.chance(1, 12);
+        if (inject) arm_fail(s.range(1, 3));
+        errno = poison;
         switch (api) {
             case 0: ok = qtreetbl_put(t, kb.c(), nullval ? nullptr : vb.p, nullval ? 0 : vb.n); break;
             case 1: ok = qtreetbl_putstr(t, kb.c(), vs->c()); break;
             case 2: ok = qtreetbl_putstrf(t, kb.c(), "%s", vs->c()); break;
             default: ok = qtreetbl_putobj(t, kb.p, kb.n, nullval ? nullptr : vb.p, nullval ? 0 : vb.n);
         }
+        long injected = inject ? vf_failed_count : 0;
+        if (inject) disarm_fail();
         if (scribble) { kb.scribble(); vb.scribble(); if (vs) vs->scribble(); }
         delete vs;
+        if (injected && !ok) { c.op("put(%s) with an allocation failing -> refused%s", hexs(k, 12).c_str(), present ? " [replace]" : ""); put_failed_by_fault++; return; }   // shape is checked by the caller, contents by the next comparison
         std::string stored = (api == 1 || api == 2) ? v + std::string(1, '\0') : v;
         c.op("%s(%s,%s)%s", api == 0 ? "put" : api == 1 ? "putstr" : api == 2 ? "putstrf" : "putobj", hexs(k, 12).c_str(), nullval ? "NULL" : hexs(stored, 8).c_str(), present ? " [replace]" : "");
         seei(ok);
@@ -228,7 +236,7 @@ struct Run {
         Buf kb(k);
         size_t sz = 777777;
         void *p;
-        errno = 0;
+        errno = poison;
         long c0 = g_cmp_count;
         switch (api) {
             case 0: p = qtreetbl_get(t, kb.c(), &sz, newmem); break;
@@ -264,7 +272,7 @@ struct Run {
         Buf kb(k);
         uint32_t r0 = _q_treetbl_rotate_left_cnt + _q_treetbl_rotate_right_cnt + _q_treetbl_flip_color_cnt;
         qtreetbl_obj_t *rootb = t->root;
-        errno = 0;
+        errno = poison;
         bool ok = (strkeys && s.boolean()) ? qtreetbl_remove(t, kb.c()) : qtreetbl_removeobj(t, kb.p, kb.n);
         int e = errno;
         if (scribble) kb.scribble();
@@ -278,7 +286,7 @@ struct Run {
     }
     void do_minmax(bool mx) {
         size_t ns = 999999;
-        errno = 0;
+        errno = poison;
         void *p = mx ? qtreetbl_find_max(t, &ns) : qtreetbl_find_min(t, &ns);
         int e = errno;
         c.op("%s()", mx ? "find_max" : "find_min");
@@ -399,7 +407,7 @@ struct Run {
         volatile bool hung = false;
         g_cmp_count = 0; g_cmp_budget = 64 * (long)(log2((double)n + 2.0) + 1) + 64;
         g_cmp_jb_armed = true;
-        errno = 0;
+        errno = poison;
         if (setjmp(g_cmp_jb) == 0) r = qtreetbl_find_nearest(t, pb.p, pb.n, newmem);
         else hung = true;
         g_cmp_jb_armed = false; g_cmp_budget = 0;
@@ -492,6 +500,7 @@ struct Run {
     }
 
     void run() {
+        { static const int pv[] = {0, ENOMEM, ENOENT, EINVAL, ERANGE}; poison = pv[s.range(0, 4)]; }
         strkeys = s.pick({3, 2}) == 0;
         g_cmpkind = strkeys ? (int)s.pick({4, 1, 1, 2}) : (int)s.pick({3, 1, 1, 1, 2});
         bool setcmp = g_cmpkind != 0 || s.boolean();
@@ -552,6 +561,7 @@ struct Run {
         if (live) { char d[300]; vf_ledger_dump(d, sizeof d); c.fail(LEAK, "tree:leak", "%zu block(s), %zu bytes still allocated after qtreetbl_free: %s", live, vf_ledger_bytes(), d); }
         vf_ledger_on = 0;
         c.tag(strkeys ? "string_keys" : "binary_keys"); c.tag(("cmp" + std::to_string(g_cmpkind)).c_str());
+        if (put_failed_by_fault) c.tag("case_with_put_refused_under_allocation_failure");
         if (rm_twochild) c.tag("case_with_two_child_removal"); if (rm_restructure) c.tag("case_with_restructuring_removal");
         if (epoch_adv >= 256) c.tag("case_with_epoch_wrap"); if (maxn >= 100) c.tag("case_with_100+_keys");
         // non-triviality per property
